@@ -236,8 +236,51 @@ func c06Run(c *ev.Ctx, k c06Case) {
 	}
 }
 
+// c06Lifetime: "chains to the configured root pool at the CURRENT time" must hold for a long-lived Attestor too. A device
+// certificate that is valid when the Attestor is built and expires 3 s later is attested before and after its expiry
+// with the same Attestor (and, symmetrically, one that becomes valid 3 s after construction). The waits are sized from
+// the certificates' own NotBefore/NotAfter with a margin, and a first attestation that comes too late makes the
+// sub-check vacuous (reported as such), never a violation.
+func c06Lifetime(c *ev.Ctx, tbs []byte) {
+	now := time.Now()
+	rootKey := fix.EC(384)
+	rt := fix.X509Template("verif lifetime root", 77, now.Add(-time.Hour), now.Add(time.Hour), true)
+	root := fix.X509Issue(rt, rt, rootKey.Public(), rootKey)
+	pool := x509.NewCertPool()
+	pool.AddCert(root)
+	dev := fix.RSA(1024)
+	expiring := fix.X509Issue(fix.X509Template("device expiring soon", 78, now.Add(-time.Hour), now.Add(4*time.Second), true), root, dev.Public(), rootKey)
+	starting := fix.X509Issue(fix.X509Template("device valid soon", 79, now.Add(4*time.Second), now.Add(time.Hour), true), root, dev.Public(), rootKey)
+	sig := c06SignRaw(dev, c06EM(128, crypto.SHA256, 0, tbs))
+	slot := &x509.Certificate{SignatureAlgorithm: x509.SHA256WithRSA, RawTBSCertificate: tbs, Signature: sig}
+	att := yubiattest.NewAttestorWithCAPool(pool) // one long-lived Attestor
+	c.Eval()
+	err1 := att.Attest(expiring, slot)
+	errS1 := att.Attest(starting, slot)
+	if err1 != nil || time.Now().After(expiring.NotAfter.Add(-500*time.Millisecond)) {
+		c.Set("lifetime_subcheck", "vacuous: the first attestation came too late or failed: "+fmt.Sprint(err1))
+		return
+	}
+	if errS1 == nil {
+		c.Violation("C06:accept:chain:notyet", "a device certificate that is not yet valid was accepted", c06Case{Note: "long-lived attestor, not yet valid"})
+	}
+	time.Sleep(time.Until(expiring.NotAfter.Add(1500 * time.Millisecond)))
+	c.Eval()
+	err2 := att.Attest(expiring, slot)
+	errS2 := att.Attest(starting, slot)
+	c.Outcome(fmt.Sprintf("lifetime/before=%v/after=%v", err1 == nil, err2 == nil))
+	c.Nontrivial("lifetime")
+	if err2 == nil {
+		c.Violation("C06:accept:chain:expired-while-attestor-alive", "an Attestor built while the device certificate was valid still accepts it after the certificate expired: the chain is not verified at the current time", c06Case{Note: "long-lived attestor: device certificate NotAfter = construction + 4 s, attested again 1.5 s after expiry"})
+	}
+	if errS2 != nil {
+		c.Violation("C06:reject:valid:became-valid-while-attestor-alive", fmt.Sprintf("a device certificate that became valid after the Attestor was built is still rejected: %v", errS2), c06Case{Note: "long-lived attestor: NotBefore = construction + 4 s"})
+	}
+	c.Set("lifetime_subcheck", "device certificate expiring / becoming valid 4 s after the Attestor was built, attested before and after with the same Attestor")
+}
+
 func checkC06(c *ev.Ctx) {
-	c.Rule("the harness owns the device RSA key, so for any target encoded message EM it computes sig = EM^d mod N: device key sizes (quick 1024,2048; thorough +1032,1536,3072,4096) x hash{SHA-1,256,384,512} x identifier form{NULL,no NULL} x every byte position of EM x 7 replacement values; structural variants (shortened/short padding, 00 inside padding, missing separator, shifted T, foreign identifier, wrong digest, block types 00/02, sig+N); single-bit flips of signature and body (quick: 1024-bit key; thorough: 2048 too); every signature-algorithm label 0..16,99,-1 x EM hash; chain relations {pool root (2 roots), foreign CA, self-signed, expired, not yet valid, missing intermediate}; device key types {RSA, P-256, Ed25519}. Oracle: independent predicate on sig^e mod N. non-trivial = accepted attestation; distinct by (size,label,chain,variant)")
+	c.Rule("the harness owns the device RSA key, so for any target encoded message EM it computes sig = EM^d mod N: device key sizes (quick 1024,2048; thorough +1032,1536,3072,4096) x hash{SHA-1,256,384,512} x identifier form{NULL,no NULL} x every byte position of EM x 7 replacement values; structural variants (shortened/short padding, 00 inside padding, missing separator, shifted T, foreign identifier, wrong digest, block types 00/02, sig+N); single-bit flips of signature and body (quick: 1024-bit key; thorough: 2048 too); every signature-algorithm label 0..16,99,-1 x EM hash; chain relations {pool root (2 roots), foreign CA, self-signed, expired, not yet valid, missing intermediate}; device key types {RSA, P-256, Ed25519}; one long-lived Attestor used before and after a device certificate's expiry / start of validity (real time, 5.5 s). Oracle: independent predicate on sig^e mod N. non-trivial = accepted attestation; distinct by (size,label,chain,variant)")
 	c.Assume("crypto/x509 chain building is trusted", "modular exponentiation by math/big")
 	t0 := time.Now()
 	c06W = c06Build()
@@ -396,6 +439,7 @@ func checkC06(c *ev.Ctx) {
 			}
 		}
 	}
+	c06Lifetime(c, tbs)
 	c.Set("cases", len(cases))
 	c.Set("case_gen_s", time.Since(t0).Seconds())
 	c.ParMap(len(cases), func(i int) {
